@@ -99,7 +99,10 @@ CtdStep(m, cd, ld, pv, lo) ==
   LET rising == cd /\ ~m.pcd
       cv == IF ld THEN pv ELSE IF rising /\ m.cv > lo THEN m.cv - 1 ELSE m.cv
   IN [cv |-> cv, pcu |-> m.pcu, pcd |-> cd]
-CtdOut(m) == [q |-> m.cv <= 0, cv |-> m.cv]
+\* zero = where the absolute 0 lies relative to the values of the run (0 itself unless the run looks at a
+\* window of a wide type far from 0, see StdFbTrace)
+CtdOutZ(m, zero) == [q |-> m.cv <= zero, cv |-> m.cv]
+CtdOut(m) == CtdOutZ(m, 0)
 CtudStep(m, cu, cd, r, ld, pv, lo, hi) ==
   LET ru == cu /\ ~m.pcu
       rd == cd /\ ~m.pcd
@@ -108,7 +111,8 @@ CtudStep(m, cu, cd, r, ld, pv, lo, hi) ==
             ELSE IF ru /\ m.cv < hi THEN m.cv + 1
             ELSE IF rd /\ ~ru /\ m.cv > lo THEN m.cv - 1 ELSE m.cv
   IN [cv |-> cv, pcu |-> cu, pcd |-> cd]
-CtudOut(m, pv) == [qu |-> m.cv >= pv, qd |-> m.cv <= 0, cv |-> m.cv]
+CtudOutZ(m, pv, zero) == [qu |-> m.cv >= pv, qd |-> m.cv <= zero, cv |-> m.cv]
+CtudOut(m, pv) == CtudOutZ(m, pv, 0)
 
 \* edge detectors: memory = CLK of the previous call (FALSE before the first)
 TrigInit == [prev |-> FALSE, calls |-> 0]
